@@ -1363,3 +1363,344 @@ class C19(Spec):
 
     def simplifications(self, plan):
         return drive_engine.simplifications(plan)
+
+
+@register
+class C18(Spec):
+    id = "C18"
+    tiers = {"quick": dict(runs=1200, builds=("py",), wall=80), "thorough": dict(runs=30000, builds=("py", "cy"), wall=1200)}
+    rule = (
+        "finished real backtests of every shape (flat / nested, tickers shared by several sub-strategies, runs without trades, shorts, bid/offer on or off, flows) - every report (weights, security_weights + cash fractions, positions, transactions, turnover, Herfindahl, Result.prices) is recomputed from the node histories; "
+        "costless runs are additionally replayed: get_transactions() is fed to ReplayTransactions on the same feed and positions / values must come back; distinct = plan digest; non-trivial = the run traded"
+    )
+    assumptions = ["thin fit for the formula part (a pure function of a finished history, said in DESIGN); the replay part is the family's own 'replay the recorded history, reach the same state'", "replay is judged for runs without commission (the transaction list does not carry fees)"]
+
+    def gen(self, r, tier, i):
+        plan = drive_engine.gen_engine_plan(r, "mixed", tier)
+        for _p, s in drive_engine.trees.strategies(plan["tree"]):
+            s["algos"] = [a for a in s.get("algos", []) if a.get("a") != "Chaos"]
+        k = i % 5
+        if k == 0:
+            plan["cfg"]["comm"] = None
+        if k == 1:
+            # shorts
+            for _p, s in drive_engine.trees.strategies(plan["tree"]):
+                for a in s["algos"]:
+                    if a.get("a") == "WeighSpecified":
+                        ws = a["weights"]
+                        for n in list(ws)[:1]:
+                            if not any(c["name"] == n and c["k"] == "S" for c in s["children"]):
+                                ws[n] = -abs(ws[n])
+        if k == 2:
+            # a run that never trades
+            plan["tree"]["algos"] = [{"a": "RunAfterDate", "date": "2100-01-01T00:00:00"}] + plan["tree"]["algos"]
+            for c in plan["tree"]["children"]:
+                if c["k"] == "S":
+                    c["algos"] = [{"a": "RunAfterDate", "date": "2100-01-01T00:00:00"}] + c.get("algos", [])
+        plan["cfg"]["obs_eod"] = False
+        plan["seed"] = r.randrange(1 << 30)
+        return plan
+
+    def run(self, bt, plan):
+        from .monitors import c18
+
+        sim, exc = drive_engine.run_light(bt, plan, seed=plan["seed"])
+        if exc is not None or sim.root is None:
+            return dict(viol=[], fired={}, nontrivial=False, info={"aborted_" + type(exc).__name__: 1})
+        viol = []
+        try:
+            tx = c18.judge(sim, viol)
+        except Exception as e:  # noqa
+            import traceback
+
+            viol.append({"check": "c18_report_raises", "detail": "%s: %s | %s" % (type(e).__name__, str(e)[:150], traceback.format_exc()[-300:].replace("\n", " / ")), "flags": {"exc": type(e).__name__}})
+            tx = None
+        fired = {}
+        root = sim.root
+        secs = [m for m in root.members if not hasattr(m, "capital")]
+        traded = any((s.positions.to_numpy() != 0).any() for s in secs)
+        names = [s.name for s in secs]
+        if len(names) != len(set(names)):
+            fired["shared_ticker"] = 1
+        if not traded:
+            fired["no_trades"] = 1
+        if any((s.positions.to_numpy() < 0).any() for s in secs):
+            fired["shorts"] = 1
+        if plan["feed"].get("bidoffer") is not None:
+            fired["bidoffer"] = 1
+        flows = root.flows.to_numpy(dtype=float)
+        if tx is not None and plan["cfg"].get("comm") is None and not root.bankrupt and not (flows[1:] != 0).any():
+            if c18.replay(sim, plan, tx, viol, drive_engine.run_light):
+                fired["log_replay"] = 1
+        return dict(viol=viol, fired=fired, nontrivial=traded, info={}, dates=len(plan["feed"]["dates"]), steps=len(secs))
+
+    def owns(self, check):
+        return check.startswith("c18_")
+
+    def simplifications(self, plan):
+        return drive_engine.simplifications(plan)
+
+
+@register
+class C20(Spec):
+    id = "C20"
+    tiers = {"quick": dict(runs=2000, builds=("py",), wall=75), "thorough": dict(runs=60000, builds=("py", "cy"), wall=1200)}
+    rule = (
+        "fixed-income trees (nested, multipliers != 1) with seeded unit-risk tables (missing securities, 1-3 measures), UpdateRisk(history=d), HedgeRisks (square / pseudo-inverse) and close / roll tables whose dates are timers on the simulated clock "
+        "(calendar gaps so that the date falls between ticks, prices absent after maturity); spies placed after the algos compare node.risk / node.risks with unit x position x multiplier summed over the tree, hedged measures with zero (least-squares normal equations for pseudo), "
+        "positions after close / roll dates with the tables; distinct = plan digest; non-trivial = a hedge, close or roll actually happened"
+    )
+    assumptions = ["the linear algebra of the hedge is a pure function (moderate fit, see DESIGN); timers, once-only effects and tree aggregation are judged over the simulated history"]
+
+    def gen(self, r, tier, i):
+        fam = ["hedge", "close", "roll", "active"][i % 4]
+        ndates = r.randint(5, 14)
+        ntick = r.randint(3, 6)
+        fspec, fired = drive_engine.gen_feed(r, ndates, ntick, style=r.choice(["bday", "gaps", "gaps"]), faults={}, spread_p=0.2, lo=80.0, hi=120.0)
+        dates, tickers = fspec["dates"], fspec["tickers"]
+        fspec["coupons"] = [[r.choice([0.0, 0.0, 0.01]) for _ in tickers] for _ in dates]
+        mult = {t: r.choice([1.0, 1.0, 10.0, 0.5, 100.0]) for t in tickers}
+        cls = {t: r.choice(["CouponPayingSecurity", "CouponPayingSecurity", "Security", "FixedIncomeSecurity"]) for t in tickers}
+        extra = {"notl": {"kind": "series", "data": [r.choice([1000.0, 5000.0]) for _ in dates]}}
+        measures = ["m%d" % k for k in range(r.randint(1, 3))]
+        ur = {}
+        for m in measures:
+            cols = [t for t in tickers if r.random() < 0.85] or tickers[:1]
+            ur[m] = {"cols": cols, "data": [[round(r.uniform(-2, 2), 3) for _ in cols] for _ in dates]}
+        extra["unit_risk"] = {"kind": "unit_risk", "measures": ur}
+        hist = r.randint(0, 3)
+        upd = [{"a": "UpdateRisk", "args": [m], "kw": {"history": hist}} for m in measures]
+        root = {"k": "S", "name": "fi", "cls": "FixedIncomeStrategy", "fi": True, "how": "list", "children": []}
+        nested = fam == "hedge" and r.random() < 0.4
+        body = tickers[: max(1, len(tickers) - len(measures))] if fam == "hedge" else tickers
+        hedges = tickers[len(body):]
+        if fam == "hedge":
+            for t in hedges:
+                cls[t] = r.choice(["HedgeSecurity", "CouponPayingHedgeSecurity"])
+        open_w = {}
+        sel = r.sample(body, r.randint(1, len(body)))
+        raw = [r.random() for _ in sel]
+        tot = sum(raw)
+        for t, x in zip(sel, raw):
+            open_w[t] = round(x / tot, 4) * r.choice([1, 1, -1])
+        opener = [{"a": "RunOnDate", "dates": [dates[0]]}, {"a": "SetNotional", "args": ["notl"]}, {"a": "WeighSpecified", "weights": open_w}, {"a": "Rebalance"}]
+        secs = lambda names: [{"k": "X", "name": t, "cls": cls[t], "mult": mult[t], "decl": r.choice(["obj", "obj", "lazy"])} for t in names]  # noqa: E731
+        if nested:
+            # (a sub-strategy's stack also runs in its paper copy on the synthetic pre-start row: gate it by the calendar)
+            sub = {"k": "S", "name": "book", "cls": "FixedIncomeStrategy", "fi": True, "how": "list", "children": secs(body), "algos": [{"a": "RunDaily", "kw": {"run_on_last_date": True}}] + upd + opener}
+            root["children"] = [sub] + secs(hedges)
+            st = list(upd)
+        else:
+            root["children"] = secs(tickers)
+            st = []
+        plan_x = {}
+        if fam == "hedge":
+            pseudo = r.random() < 0.4
+            hs = hedges if not pseudo else (hedges if r.random() < 0.5 else hedges[:1] or hedges)
+            if not hs:
+                hs = [body[-1]]
+            if not pseudo and len(hs) != len(measures):
+                pseudo = True
+            st2 = [] if nested else [{"a": "Or", "algos": [{"a": "AlgoStack", "algos": opener}, {"a": "RunDaily"}]}]
+            st = st + st2 + upd + [{"a": "Spy", "id": 1}, {"a": "RunOnDate", "dates": sorted(r.sample(dates, r.randint(1, len(dates))))}, {"a": "SelectThese", "args": [hs], "kw": {"include_no_data": True}}, {"a": "HedgeRisks", "measures": measures, "pseudo": pseudo}] + upd + [{"a": "Spy", "id": 2}]
+            plan_x = {"hedges": hs, "pseudo": pseudo}
+        else:
+            evd = sorted(r.sample(range(1, ndates), r.randint(1, min(3, ndates - 1))))
+            tgt_names = r.sample(sel, min(len(sel), len(evd)))
+            import datetime as _dt
+
+            def between(k):
+                # a table date that falls between two ticks (or on one)
+                a = _dt.datetime.fromisoformat(dates[k - 1])
+                b = _dt.datetime.fromisoformat(dates[k])
+                return (a + (b - a) * r.choice([0.5, 1.0, 1.0])).isoformat() if b > a else dates[k]
+
+            if fam in ("close", "active"):
+                tab = {"kind": "table", "index": tgt_names, "cols": ["date"], "data": [[between(k)] for k in evd[: len(tgt_names)]], "datecols": ["date"]}
+                extra["cd"] = tab
+                head = [{"a": "ClosePositionsAfterDates", "args": ["cd"]}, {"a": "Spy", "id": 3}]
+                # prices disappear after maturity (the position is closed by then)
+                for name, k in zip(tgt_names, evd):
+                    j = tickers.index(name)
+                    for i2 in range(k + 1, ndates):
+                        if r.random() < 0.5:
+                            fspec["prices"][i2][j] = None
+                            fspec["coupons"][i2][j] = 0.0
+            else:
+                others = [t for t in tickers if t not in tgt_names] or tickers
+                tab = {"kind": "table", "index": tgt_names, "cols": ["date", "target", "factor"], "data": [[between(k), r.choice(others), r.choice([1.0, 0.5, 2.0, 1.25])] for k in evd[: len(tgt_names)]], "datecols": ["date"]}
+                extra["rd"] = tab
+                head = [{"a": "RollPositionsAfterDates", "args": ["rd"]}, {"a": "Spy", "id": 4}]
+            if fam == "active":
+                st = head + upd + [{"a": "SetNotional", "args": ["notl"]}, {"a": "SelectAll"}, {"a": "SelectActive"}, {"a": "Spy", "id": 5}, {"a": "WeighEqually"}, {"a": "Rebalance"}, {"a": "Spy", "id": 6}]
+            else:
+                st = head + upd + [{"a": "Spy", "id": 1}] + opener
+            plan_x = {"table": tab}
+        root["algos"] = st
+        cfg = {"integer": False, "comm": None, "capital": 0.0, "fi": True, "obs_price": False, "obs_eod": False, "profile": "risk_" + fam}
+        return {"driver": "engine", "cfg": cfg, "tree": root, "feed": fspec, "extra": extra, "fam": fam, "measures": measures, "hist": hist, "x": plan_x, "fired": fired, "mult": mult}
+
+    def run(self, bt, plan):
+        import datetime as _dt
+
+        import numpy as np
+
+        sim = drive_engine.EngineSim(bt, plan, set())
+        sim.light = True
+        viol = sim.viol
+        fired = {}
+        feed = sim.feed
+        measures = plan["measures"]
+        urs = plan["extra"]["unit_risk"]["measures"]
+        snaps = []
+
+        def unit(m, name, t):
+            fr = urs[m]
+            if name not in fr["cols"]:
+                return 0.0
+            return fr["data"][t][fr["cols"].index(name)]
+
+        def expected_risk(node, m, t):
+            if not hasattr(node, "capital"):
+                return 0.0 if abs(node.position) < 1e-16 else unit(m, node.name, t) * node.position * node.multiplier
+            return sum(expected_risk(c, m, t) for c in node.children.values())
+
+        def check_risk(target, t, where):
+            depth = {}
+
+            def walk(n, d):
+                depth[n.full_name] = d
+                for c in n.children.values():
+                    walk(c, d + 1)
+
+            walk(target, 0)
+            for n in target.members:
+                if not hasattr(n, "risk"):
+                    sim.violation("c20_risk", "%s has no risk attribute after UpdateRisk (%s)" % (n.full_name, where), {})
+                    return False
+                for m in measures:
+                    e = expected_risk(n, m, t)
+                    g = n.risk.get(m)
+                    if g is None or not (abs(g - e) <= 1e-9 * (1 + abs(e))):
+                        sim.violation("c20_risk", "%s risk[%s]=%r %s on date #%d, unit x position x multiplier summed over the subtree = %r" % (n.full_name, m, g, where, t, e), {"sec": not hasattr(n, "capital")})
+                        return False
+                has_hist = hasattr(n, "risks")
+                if has_hist != (depth[n.full_name] < plan["hist"]):
+                    # depth counts from the strategy that runs UpdateRisk: only judged when the root alone runs it
+                    if target is sim.root and not nested_upd:
+                        sim.violation("c20_risk_history", "%s %s a risks history although history depth is %d and the node sits at depth %d" % (n.full_name, "has" if has_hist else "lacks", plan["hist"], depth[n.full_name]), {})
+                        return False
+                elif has_hist and target is sim.root:
+                    for m in measures:
+                        row = n.risks.loc[target.now, m]
+                        if not (abs(row - n.risk[m]) <= 1e-9 * (1 + abs(row))):
+                            sim.violation("c20_risk_history", "%s risks[%s] row of the current date is %r, risk is %r" % (n.full_name, m, row, n.risk[m]), {})
+                            return False
+            return True
+
+        state = {"pre": None, "closed": {}, "rolled": {}}
+        nested_upd = any(any(a.get("a") == "UpdateRisk" for a in c.get("algos", [])) for c in plan["tree"]["children"] if c["k"] == "S")
+
+        def hook(spy, target, t):
+            if target.root is not sim.root or target is not sim.root:
+                return
+            sid = spy.spec["id"]
+            if sid == 1:
+                if check_risk(target, t, "after UpdateRisk"):
+                    state["pre"] = {m: target.risk[m] for m in measures}
+            elif sid == 2:
+                fired["hedge"] = fired.get("hedge", 0) + 1
+                if not check_risk(target, t, "after HedgeRisks+UpdateRisk"):
+                    return
+                post = np.array([target.risk[m] for m in measures])
+                pre = np.array([state["pre"][m] for m in measures]) if state["pre"] else post
+                hs = plan["x"]["hedges"]
+                J = np.array([[unit(m, s, t) * plan["mult"][s] for m in measures] for s in hs])
+                scale = 1e-7 * (1 + np.abs(pre).max() + np.abs(post).max())
+                if not plan["x"]["pseudo"]:
+                    if np.abs(post).max() > scale * max(1.0, np.linalg.cond(J)):
+                        sim.violation("c20_hedge", "after HedgeRisks with %d independent instruments the strategy's risk is %s (was %s)" % (len(hs), post.tolist(), pre.tolist()), {"pseudo": False})
+                else:
+                    g = J.dot(post)  # normal equations of the least-squares problem
+                    if np.abs(g).max() > scale * (1 + np.abs(J).max() ** 2) * 10:
+                        sim.violation("c20_hedge", "after pseudo-inverse HedgeRisks the residual risk %s is not least-squares minimal (J.r = %s)" % (post.tolist(), g.tolist()), {"pseudo": True})
+            elif sid in (3, 4, 5, 6):
+                snaps.append((sid, t, {n.name: n.position for n in target.members if not hasattr(n, "capital")}, list(target.temp.get("selected", [])) if sid == 5 else None))
+
+        sim.spy_hook = hook
+        drive_engine.taps.install(bt)
+        exc = None
+        try:
+            sim.setup()
+            sim.bkt.run()
+        except Exception as e:  # noqa
+            exc = e
+        finally:
+            drive_engine.taps.set_current(None)
+        if exc is not None:
+            msg = str(exc)
+            if "Singular matrix" in msg or "nan hedge notional" in msg:
+                return dict(viol=viol, fired=fired, nontrivial=False, info={"singular_jacobian": 1})
+            viol.append({"check": "c20_exception", "detail": "%s: %s" % (type(exc).__name__, msg[:200]), "flags": {"fam": plan["fam"], "exc": type(exc).__name__}})
+            return dict(viol=viol, fired=fired, nontrivial=False, info={})
+        # ---- close / roll tables against the recorded positions
+        dates = [_dt.datetime.fromisoformat(d) for d in plan["feed"]["dates"]]
+        fam = plan["fam"]
+        root = sim.root
+        pos = {}
+        for n in root.members:
+            if not hasattr(n, "capital"):
+                pos[n.name] = n.positions.to_numpy(dtype=float)[1:]
+        if fam in ("close", "active"):
+            tab = plan["x"]["table"]
+            for name, (d,) in zip(tab["index"], tab["data"]):
+                D = _dt.datetime.fromisoformat(d)
+                ks = [k for k, x in enumerate(dates) if x >= D]
+                if not ks or name not in pos:
+                    continue
+                k0 = ks[0]
+                fired["close_date_passed"] = fired.get("close_date_passed", 0) + 1
+                if (np.abs(pos[name][k0:]) > 1e-12).any():
+                    k = k0 + int(np.argmax(np.abs(pos[name][k0:]) > 1e-12))
+                    viol.append({"check": "c20_close", "detail": "%s closes after %s but holds %r at the end of %s" % (name, D, pos[name][k], dates[k]), "flags": {"fam": fam}})
+                    break
+                if (np.abs(pos[name][:k0]) > 1e-12).any():
+                    fired["position_closed"] = fired.get("position_closed", 0) + 1
+            for sid, t, _p, selected in snaps:
+                if sid == 5:
+                    for name, (d,) in zip(tab["index"], tab["data"]):
+                        if dates[t] >= _dt.datetime.fromisoformat(d) and name in selected:
+                            viol.append({"check": "c20_select_active", "detail": "%s was closed after %s but SelectActive still selects it on %s" % (name, d, dates[t]), "flags": {}})
+                            break
+        if fam == "roll":
+            tab = plan["x"]["table"]
+            by_t = {t: p for sid, t, p, _s in snaps if sid == 4}
+            done = set()
+            for t in sorted(by_t):
+                before = {n: (pos[n][t - 1] if t >= 1 else 0.0) for n in pos}
+                exp = dict(before)
+                for name, (d, target, factor) in zip(tab["index"], tab["data"]):
+                    if name in done or name not in before:
+                        continue
+                    if dates[t] >= _dt.datetime.fromisoformat(d):
+                        done.add(name)
+                        exp[target] = exp.get(target, 0.0) + factor * before[name]
+                        exp[name] = exp.get(name, 0.0) - before[name]
+                        if before[name] != 0:
+                            fired["roll"] = fired.get("roll", 0) + 1
+                got = by_t[t]
+                for n in set(exp) | set(got):
+                    if abs(got.get(n, 0.0) - exp.get(n, 0.0)) > 1e-9 * (1 + abs(exp.get(n, 0.0))):
+                        viol.append({"check": "c20_roll", "detail": "after RollPositionsAfterDates on %s %s holds %r, expected %r (before %r)" % (dates[t], n, got.get(n, 0.0), exp.get(n, 0.0), before.get(n, 0.0)), "flags": {}})
+                        break
+                else:
+                    continue
+                break
+        nontriv = bool(fired.get("hedge") or fired.get("position_closed") or fired.get("roll"))
+        return dict(viol=viol, fired=fired, nontrivial=nontriv, info={"fam_" + fam: 1}, dates=len(dates), steps=len(sim.spy_log))
+
+    def owns(self, check):
+        return check.startswith("c20_")
+
+    def simplifications(self, plan):
+        return []
